@@ -179,6 +179,19 @@ func idemMain(s *simrt.Sim, info *harness.RunInfo) {
 	nexec := 0
 	var execs []*idemExec
 	app := fiber.New()
+	// an upstream middleware that is still busy after the chain returned: the replayed
+	// or recorded response is not on the wire yet while other requests are served
+	lateUpstream := s.Chance(400)
+	app.Use(func(c fiber.Ctx) error {
+		err := c.Next()
+		if lateUpstream {
+			simrt.Yield(410)
+			if s.Chance(300) {
+				simrt.Sleep(time.Millisecond)
+			}
+		}
+		return err
+	})
 	app.Use(idempotency.New(cfg))
 	app.All("/do", func(c fiber.Ctx) error {
 		op := ops[atoi(c.Get("X-Op"))]
